@@ -306,3 +306,8 @@ func VerifC09_Truncation() {
 //verif:reach passed dropped
 //verif:unwind 100
 func VerifC19_InputCounters() { verifAnyHead(7 + sym.Tier()) }
+
+// VerifC07_ParseAroundLimits: messages around the (scaled) size limits: no panic.
+//
+//verif:reach cut uncut
+func VerifC07_ParseAroundLimits() { VerifC09_Truncation() }
